@@ -279,6 +279,16 @@ class Tap:
         np.argsort = self.saved_argsort
         return False
 
+    def add_implicit_argsort(self):
+        """peig / leig sort the eigenvalues; when the source does it through the METHOD form (D.real.argsort(),
+        which cannot be tapped) instead of np.argsort, the sorting permutation of the tapped eigenvalues is
+        appended as if it had been tapped (it is unique: the generators keep the eigenvalue gaps >= 1e-3 relative)"""
+        names = [c[0] for c in self.log]
+        if names == ['eig']:
+            d = self.log[0][3][0]
+            self.log.append(('argsort', [np.array(d.real)], {}, np.argsort(d.real)))
+        return self
+
     def calls(self, name):
         return [c for c in self.log if c[0] == name]
 
@@ -2434,7 +2444,14 @@ def corr_select(ctx, g, drv, n_cases):
             except Exception as e:
                 r, err = None, type(e).__name__
         cases.append((a, which, n, r, err, tap, var))
-        perm = tap.calls('argsort')[0][3].tolist() if tap.calls('argsort') else list(range(ncols))
+        if tap.calls('argsort'):
+            perm = tap.calls('argsort')[0][3].tolist()
+        elif tap.calls('eig'):
+            # the sort was not made through np.argsort (e.g. the method form D.real.argsort()): the sorting
+            # permutation of the tapped eigenvalues is unique (the generator keeps the eigenvalue gaps >= 1e-3)
+            perm = np.argsort(tap.calls('eig')[0][3][0].real).tolist()
+        else:
+            perm = list(range(ncols))
         lines.append('%s %d %d %s' % (which, ncols, n, ','.join(map(str, perm)) if perm else '-'))
     out = drv.ask(lines)
     for i, (a, which, n, r, err, tap, var) in enumerate(cases):
@@ -2447,10 +2464,13 @@ def corr_select(ctx, g, drv, n_cases):
             continue
         ctx.branch('select:' + which)
         names = [c[0] for c in tap.log]
-        if names != ['eig', 'argsort']:
+        if names not in (['eig', 'argsort'], ['eig']):
             ctx.corr(which + '.kernel-calls', case, repr(names), "['eig','argsort']", key=key)
             continue
         dvals, vmat = tap.log[0][3]
+        if names == ['eig']:
+            ctx.branch('select:sort-not-tapped')
+            tap.log.append(('argsort', [dvals.real], {}, np.argsort(dvals.real)))
         ok_args = np.array_equal(tap.log[0][1][0], a) and np.array_equal(tap.log[1][1][0], dvals.real)
         ctx.corr(which + '.kernel-arguments', case, 'eig(A),argsort(D.real)' if ok_args else 'other',
                  'eig(A),argsort(D.real)', key=key + ('args',))
